@@ -26,7 +26,12 @@ pub enum Case {
     /// curve / one spline
     PermutedNames { id: u32 },
     CalStruct { mask: u8, hols: u8 },
-    UnionStruct { id: u32 },
+    UnionStruct {
+        id: u32,
+        /// number of further member calendars (unions of 4 .. 14 members)
+        #[serde(default)]
+        extra: u32,
+    },
     Named { name: String },
     Curve { interp: u8, order: u8, calkind: u8, conv: u8, modi: u8, index_base: bool, switches: Vec<u8> },
     Fx { id: u32 },
@@ -579,10 +584,10 @@ pub fn check(case: &Case, idx: u64, acc: &mut Acc) {
             let ct = CalType::Cal(c.clone());
             rep.judge("json", "CalType", ct.to_json().map_err(|e| format!("to_json failed: {}", e)).and_then(|s| CalType::from_json(&s).map_err(|e| format!("from_json failed: {}", e))).and_then(|y| if y == ct { Ok(()) } else { Err("structure/own == says different".into()) }));
         }
-        Case::UnionStruct { id } => {
+        Case::UnionStruct { id, extra } => {
             let z0 = 19786;
             let mk = |k: u32| Cal::new((0..3).filter(|i| (k >> i) & 1 == 1).map(|i| to_ndt(z0 + i as i64)).collect(), if k & 8 != 0 { vec![4, 5] } else { vec![5, 6] });
-            let members: Vec<Cal> = (0..(1 + id % 3)).map(|j| mk(id / 3 + j * 5)).collect();
+            let members: Vec<Cal> = (0..(1 + id % 3 + extra)).map(|j| mk(id / 3 + j * 5)).collect();
             let settle = match (id / 48) % 4 {
                 0 => None,
                 1 => Some(vec![]),
@@ -779,7 +784,12 @@ pub fn cases(tier: Tier) -> Vec<Case> {
         }
     }
     for id in 0..192 {
-        out.push(Case::UnionStruct { id });
+        out.push(Case::UnionStruct { id, extra: 0 });
+        if id % 8 == 3 {
+            for extra in [1u32, 2, 3, 4, 6, 11] {
+                out.push(Case::UnionStruct { id, extra });
+            }
+        }
     }
     let small = ["all", "bus", "tgt", "ldn", "fed", "tyo"];
     let mut names: Vec<String> = small.iter().map(|s| s.to_string()).collect();
@@ -844,7 +854,7 @@ pub fn run(ctx: &Ctx, replay_file: Option<String>) -> ! {
          (float and Dual), as a spline coefficient and knot, and sent through three channels: JSON of the type, the \
          tagged from_json entry point (hook), and bincode (the byte state of __getstate__/__setstate__). Structures: \
          dual numbers with 0-3 names (unicode, quotes, empty); numbers listing the same names in every order loaded \
-         one after the other on one thread and inside one curve / spline / FX market; every week mask x holiday subsets for Cal; unions with \
+         one after the other on one thread and inside one curve / spline / FX market; every week mask x holiday subsets for Cal; unions of 1-3 (and 4-14) member calendars with \
          None / [] / 1-2 settlement calendars; named calendars (name-only storage checked in the JSON text, full \
          1970-2200 behaviour compared); curves: 6 interpolators x 3 orders x 3 calendar kinds x 11 conventions x 5 \
          modifiers x index base on/off, and curves with a history of order switches; FX markets of 2-4 currencies x \
